@@ -1,13 +1,131 @@
-/- Line-protocol driver of the Jit cluster (see lakefile.toml). -/
+/- Line-protocol driver of the Jit cluster (see lakefile.toml).
+
+Requests:
+  (ping)
+  (cache N timeout (schedule (pid choice) ...))      choice ∈ none | fail | kill
+     -> (ok (trace (pid op res handlers stdout) ...)           one entry per schedule entry
+            (fs lock so obj marker failed)
+            (procs (pid pc nextop polls handlers stdout) ...)
+            (counters nLock nRel nCompile))
+  (schedules N timeout depth (pids pid ...))
+     -> (ok (sched pid ...) ...)   all fault-free schedules of the given pids, from the empty cache,
+                                   each extended until the marker exists (or nobody can move)
+-/
 import FfcxModel.Driver.Loop
+import FfcxModel.Jit.Cache
 
 open Ffcx
+open Ffcx.Jit
 
+namespace JitWire
+
+def lockS : Lock → String
+  | .absent => "absent" | .empty => "empty" | .source => "source"
+
+def soS : So → String
+  | .absent => "absent" | .part => "partial" | .complete => "complete"
+
+def gS : GVal → String
+  | .user => "user" | .capture => "capture"
+
+def causeS : Cause → String
+  | .gen => "gen" | .compile => "compile" | .marker => "marker"
+
+def opS : Op → String
+  | .lock => "lock" | .poll => "poll" | .find => "find" | .load => "load" | .gen => "gen"
+  | .swap => "swap" | .src => "src" | .obj => "obj" | .link1 => "link1" | .link2 => "link2"
+  | .unredir => "unredir" | .mark => "mark" | .restore => "restore" | .release => "release"
+  | .kill => "kill" | .none => "none"
+
+def resS : Res → String
+  | .ok => "ok" | .exists_ => "exists" | .true_ => "true" | .false_ => "false" | .found => "found"
+  | .notfound => "notfound" | .raise => "raise" | .so s => soS s | .enoent => "enoent" | .unit => "-"
+
+def pcS : Pc → Sexp
+  | .idle => .atom "idle"
+  | .wPoll i => .list [.atom "wPoll", Sexp.ofNat i]
+  | .wFind => .atom "wFind" | .wLoad => .atom "wLoad"
+  | .bGen => .atom "bGen" | .bSwap => .atom "bSwap" | .bSrc => .atom "bSrc" | .bObj => .atom "bObj"
+  | .bLink1 => .atom "bLink1" | .bLink2 => .atom "bLink2" | .bUnredir => .atom "bUnredir"
+  | .bMark => .atom "bMark" | .bRestore => .atom "bRestore" | .bFind => .atom "bFind"
+  | .bLoad => .atom "bLoad"
+  | .bFail c => .list [.atom "bFail", .atom (causeS c)]
+  | .done b so => .list [.atom "done", Sexp.ofBool b, .atom (soS so)]
+  | .raised .timeout => .list [.atom "raised", .atom "timeout"]
+  | .raised .notFound => .list [.atom "raised", .atom "notfound"]
+  | .raised (.build c) => .list [.atom "raised", .atom "build", .atom (causeS c)]
+  | .dead => .atom "dead"
+
+/-- The operation the request would perform next (what the real thread is blocked at). -/
+def nextOp : Pc → String
+  | .idle => "lock" | .wPoll _ => "poll" | .wFind => "find" | .wLoad => "load"
+  | .bGen => "gen" | .bSwap => "swap" | .bSrc => "src" | .bObj => "obj" | .bLink1 => "link1"
+  | .bLink2 => "link2" | .bUnredir => "unredir" | .bMark => "mark" | .bRestore => "restore"
+  | .bFind => "find" | .bLoad => "load" | .bFail _ => "release"
+  | .done _ _ | .raised _ | .dead => "none"
+
+def choiceOf (s : Sexp) : Except String Choice := do
+  let a ← s.asAtom
+  match a with
+  | "none" => .ok .none
+  | "fail" => .ok .fail
+  | "kill" => .ok .kill
+  | _ => .error s!"bad choice {a}"
+
+def scheduleOf (s : Sexp) : Except String (List (Nat × Choice)) := do
+  match s with
+  | .list (.atom "schedule" :: entries) =>
+    entries.mapM fun e => do
+      match e with
+      | .list [p, c] => do
+        let pid ← p.asNat
+        let ch ← choiceOf c
+        pure (pid, ch)
+      | _ => .error "schedule entry must be (pid choice)"
+  | _ => .error "expected (schedule ...)"
+
+def fsS (fs : FS) : Sexp :=
+  .list [.atom "fs", .atom (lockS fs.lock), .atom (soS fs.so), Sexp.ofBool fs.obj,
+    Sexp.ofBool fs.marker, Sexp.ofBool fs.failed]
+
+def cache (n timeout : Nat) (sch : List (Nat × Choice)) : Sexp :=
+  let r := runTrace (init n timeout) sch
+  let tr := r.1.map fun (pid, o, g) =>
+    Sexp.list [Sexp.ofNat pid, .atom (opS o.op), .atom (resS o.res), .atom (gS g.handlers), .atom (gS g.stdout)]
+  let s := r.2
+  let procs := (List.range s.procs.length).zip s.procs |>.map fun (i, p) =>
+    Sexp.list [Sexp.ofNat i, pcS p.pc, .atom (nextOp p.pc), Sexp.ofNat p.polls,
+      .atom (gS p.g.handlers), .atom (gS p.g.stdout)]
+  .list [.atom "ok", .list (.atom "trace" :: tr), fsS s.fs, .list (.atom "procs" :: procs),
+    .list [.atom "counters", Sexp.ofNat s.nLock, Sexp.ofNat s.nRel, Sexp.ofNat s.nCompile]]
+
+end JitWire
+
+open JitWire in
 def dispatch (req : Sexp) : Except String Sexp :=
   match req with
-  | .list (.atom cmd :: _args) =>
+  | .list (.atom cmd :: args) =>
     match cmd with
     | "ping" => .ok (.atom "pong")
+    | "cache" =>
+      match args with
+      | [n, t, sch] => do
+        let n ← n.asNat
+        let t ← t.asNat
+        let sch ← scheduleOf sch
+        if n > 64 then .error "too many processes" else
+        pure (cache n t sch)
+      | _ => .error "usage: (cache N timeout (schedule (pid choice) ...))"
+    | "schedules" =>
+      match args with
+      | [n, t, d, .list (.atom "pids" :: pids)] => do
+        let n ← n.asNat
+        let t ← t.asNat
+        let d ← d.asNat
+        let pids ← pids.mapM Sexp.asNat
+        let all := schedulesToMarker pids d (init n t)
+        pure (.list (.atom "ok" :: all.map fun sch => .list (.atom "sched" :: sch.map Sexp.ofNat)))
+      | _ => .error "usage: (schedules N timeout depth (pids pid ...))"
     | _ => .error s!"unknown command {cmd}"
   | _ => .error "request must be a list"
 
